@@ -127,6 +127,8 @@ def cases(tier, seed, args):
             out.append(dict(t='phase', lead=[0, 1, 2, 3][i % 4], zero=bool(i % 5 == 4), **base(i)))
         for i in range(n * 2):
             out.append(dict(t='stackeq', fn=['souden', 'wmwf', 'gev', 'pca', 'ban', 'mvdr', 'souden_auto'][i % 7], L=int(rng.integers(1, 4)), **base(i)))
+        for i in range(4 if q else 16):
+            out.append(dict(t='stackeq', fn=['wmwf_fd', 'wmwf_mu'][i % 2], L=2 + i % 2, **dict(base(i), F=[3, 8, 2, 5][i % 4])))
         for i in range(n):
             out.append(dict(t='singular', fn=['souden', 'wmwf'][i % 2], kind=['zero', 'rank', 'both'][i % 3], **base(i)))
         # every bin degenerate (target PSD zero, or noise PSD zero, in all bins) with the ESTIMATED reference channel
@@ -623,6 +625,8 @@ def run_case(case):
         f = {'souden': lambda i: bf.get_mvdr_vector_souden(phix[i], phin[i], ref_channel=1),
              'souden_auto': lambda i: bf.get_mvdr_vector_souden(phix[i], phin[i]),
              'wmwf': lambda i: bf.get_wmwf_vector(phix[i], phin[i], reference_channel=0),
+             'wmwf_fd': lambda i: bf.get_wmwf_vector(phix[i], phin[i], reference_channel=1, distortion_weight='frequency_dependent'),
+             'wmwf_mu': lambda i: bf.get_wmwf_vector(phix[i], phin[i], reference_channel=1, distortion_weight=7.5),
              'gev': lambda i: bf.get_gev_vector(phix[i], phin[i]),
              'pca': lambda i: bf.get_pca_vector(phix[i]),
              'ban': lambda i: bf.blind_analytic_normalization(w0[i], phin[i]),
@@ -641,6 +645,8 @@ def run_case(case):
             return [dict(kind='pair', what='stack', items=its, exc='', fp=fp + f';{fn}', key=f'st:{case["seed"]}')]
         g = {'souden': lambda: bf.get_mvdr_vector_souden(phix, phin, ref_channel=1),
              'wmwf': lambda: bf.get_wmwf_vector(phix, phin, reference_channel=0),
+             'wmwf_fd': lambda: bf.get_wmwf_vector(phix, phin, reference_channel=1, distortion_weight='frequency_dependent'),
+             'wmwf_mu': lambda: bf.get_wmwf_vector(phix, phin, reference_channel=1, distortion_weight=7.5),
              'gev': lambda: bf.get_gev_vector(phix, phin),
              'pca': lambda: bf.get_pca_vector(phix),
              'ban': lambda: bf.blind_analytic_normalization(w0, phin),
@@ -775,6 +781,10 @@ def _name(case, rng):
         kw['use_eig'] = True             # general (non-Hermitian) eigen-solver: unit-2-norm eigenvectors
     if p['ok'] and p['pre'] == 'rank1_pca' and case.get('refch') == 1:
         kw['atf_kwargs'] = dict(scaling='trace')
+    if p['ok'] and p['main'] == 'mvdr' and p['pre'] == 'atf_pca' and case.get('refch') is not None:
+        kw['atf_kwargs'] = dict(scaling=['trace', 'eigenvalue'][case['refch'] % 2])      # MVDR depends on the complex scale of the ATF
+    if p['ok'] and p['main'] == 'mvdr' and p['pre'] not in ('atf_pca', 'none') and not p['pre'].startswith('rank1') and case.get('refch') == 1:
+        kw['atf_kwargs'] = dict(use_eig=True)
     if case['seed'] % 2:
         phix, phin = flay(phix), flay(phin)
     if case['seed'] % 3 == 0 and p['ok']:
